@@ -226,6 +226,9 @@ func TestVerif_C10_Messenger(t *testing.T) {
 			ctx := context.Background()
 			p := peer.ID(verifsim.NewPool("peer", 256).IDs[3])
 			violatesExpectation := false
+			// what the remote's bytes decode to: trailing bytes may themselves encode known fields and override earlier ones,
+			// so expectations are stated over the decoded message, not over the scenario's intent
+			eff, effErr := (&fakeSender{sc: &s}).respond()
 			func() {
 				defer func() {
 					if r := recover(); r != nil {
@@ -236,10 +239,7 @@ func TestVerif_C10_Messenger(t *testing.T) {
 				case "putvalue":
 					rec := &recpb.Record{Key: []byte(c10Key), Value: []byte("value")}
 					err := pm.PutValue(ctx, p, rec)
-					echoOK := !s.Err && (s.Rec == "same" || s.Rec == "otherkey" || s.Rec == "nokey")
-					if _, uerr := (&fakeSender{sc: &s}).respond(); uerr != nil {
-						echoOK = false
-					}
+					echoOK := effErr == nil && bytes.Equal(eff.GetRecord().GetValue(), rec.Value)
 					if !echoOK {
 						violatesExpectation = true
 						if err == nil {
@@ -254,7 +254,7 @@ func TestVerif_C10_Messenger(t *testing.T) {
 						}
 						checkInfos(&res, "GetValue", peers)
 					}
-					if s.Rec == "otherkey" || s.Rec == "nokey" {
+					if effErr == nil && eff.Record != nil && !bytes.Equal(eff.Record.GetKey(), []byte(c10Key)) {
 						violatesExpectation = true
 						if err == nil && rec != nil {
 							res.Fail("record-key", "C10/l1/getvalue/wrong-key", "record for another key accepted")
@@ -273,10 +273,10 @@ func TestVerif_C10_Messenger(t *testing.T) {
 					}
 				case "ping":
 					err := pm.Ping(ctx, p)
-					if !s.Err && s.Type != int(pb.Message_PING) {
+					if effErr == nil && eff.Type != pb.Message_PING {
 						violatesExpectation = true
 						if err == nil {
-							res.Fail("ping-type", "C10/l1/ping/wrong-type-accepted", "Ping accepted a response of type %d", s.Type)
+							res.Fail("ping-type", "C10/l1/ping/wrong-type-accepted", "Ping accepted a response of type %d", eff.Type)
 						}
 					}
 				case "putprovider":
